@@ -36,7 +36,7 @@ ASSUMPTIONS = [
 ]
 FLOORS = {'rounding_calls': 5000, 'elementary_calls': 2000,
           'domain_calls': 30, 'contract_evals': 5000, 'formula_calls': 300,
-          'functions_seen': 30}
+          'functions_seen': 30, 'host_decimal_context_calls': 500}
 ANCHOR_FUNCS = {'xlcalculator/xlfunctions/math.py': [
     'ROUND', 'ROUNDUP', 'ROUNDDOWN', 'TRUNC', 'INT', 'CEILING', 'FLOOR',
     'EVEN', '_round', 'MOD', 'LN', 'LOG', 'LOG10', 'SQRT', 'ATAN2', 'FACT',
@@ -136,11 +136,16 @@ class Runner:
         self.formulas = []
         self.seen = set()
 
-    def call(self, fname, args):
+    def call(self, fname, args, host=None):
         f = self.F.get(fname)
         self.seen.add(fname)
         if f is None:
             return ('raised', 'KeyError: not registered')
+        if host is not None:
+            # the calling thread's decimal context as a host application may
+            # have set it (the reference has its own private context)
+            with decimal.localcontext(host):
+                return monitors.call_outcome(f, *args)
         return monitors.call_outcome(f, *args)
 
     def judge(self, fname, args, want, got, kind, nt, tol_ulp=0, via='lib',
@@ -180,6 +185,18 @@ class Runner:
              formula=False):
         got = self.call(fname, args)
         self.judge(fname, args, want, got, kind, nt, tol_ulp, 'lib', tags)
+        if kind == 'rounding' and self.ctx.rng.random() < 0.15:
+            rng = self.ctx.rng
+            host = decimal.Context(
+                prec=rng.choice([5, 9, 12]),
+                rounding=rng.choice([decimal.ROUND_DOWN, decimal.ROUND_UP,
+                                     decimal.ROUND_HALF_EVEN]))
+            got = self.call(fname, args, host)
+            self.ctx.event('host_decimal_context_calls')
+            self.judge(fname, args, want, got, kind,
+                       nt + ('host-context',) if nt else None, tol_ulp,
+                       f'lib, caller\'s decimal context prec={host.prec} '
+                       f'{host.rounding}', tags + ('host_context',))
         if formula:
             self.formulas.append((fname, args, want, kind, nt, tol_ulp, tags))
             if len(self.formulas) >= 300:
